@@ -232,6 +232,38 @@ where
     IterObs { fwd, len, back, mixed, end }
 }
 
+/// An iterator that promises no exact length (ancestors, descendants, descendant events): what it
+/// yields, and - reported through an impossible index - whether `size_hint` brackets the number of items
+/// still to come at every step of the walk, and whether the provided methods (`fold`, `count`, `last`,
+/// `nth`) agree with `next`.
+fn observe_plain<T, I: Iterator<Item = T>>(mk: impl Fn() -> I, ix: impl Fn(&T) -> u64) -> Vec<u64> {
+    let items: Vec<u64> = mk().map(|x| ix(&x)).collect();
+    let mut it = mk();
+    let mut hints_ok = true;
+    for k in 0..=items.len() {
+        let remaining = items.len() - k;
+        let (lo, hi) = it.size_hint();
+        hints_ok &= lo <= remaining && hi.map_or(true, |hi| remaining <= hi);
+        let item = it.next().map(|x| ix(&x));
+        hints_ok &= item == items.get(k).copied();
+    }
+    let derived_ok = mk().fold(vec![], |mut acc, x| {
+        acc.push(ix(&x));
+        acc
+    }) == items
+        && mk().count() == items.len()
+        && mk().last().map(|x| ix(&x)) == items.last().copied()
+        && (0..=items.len()).all(|k| mk().nth(k).map(|x| ix(&x)) == items.get(k).copied());
+    if hints_ok && derived_ok {
+        items
+    } else {
+        let mut bad = items;
+        // (an index no storage of a case reaches; small enough for the judge to convert it to `nat`)
+        bad.push(1_000_000);
+        bad
+    }
+}
+
 struct SpanObs {
     i: u64,
     parent: Option<u64>,
@@ -280,9 +312,9 @@ fn observe(storage: &Storage, expect: Option<Vec<Option<u64>>>) -> StorageObs {
             children: observe_iter(|| s.children(), sx),
             events: observe_iter(|| s.events(), ex),
             follows: observe_iter(|| s.follows_from(), sx),
-            ancestors: s.ancestors().map(|a| sx(&a)).collect(),
-            descendants: s.descendants().map(|d| sx(&d)).collect(),
-            desc_events: s.descendant_events().map(|e| ex(&e)).collect(),
+            ancestors: observe_plain(|| s.ancestors(), &sx),
+            descendants: observe_plain(|| s.descendants(), &sx),
+            desc_events: observe_plain(|| s.descendant_events(), &ex),
         })
         .collect();
     let events = storage
@@ -290,7 +322,7 @@ fn observe(storage: &Storage, expect: Option<Vec<Option<u64>>>) -> StorageObs {
         .map(|e| EventObs {
             i: field_i_event(&e),
             parent: e.parent().map(|p| sx(&p)),
-            ancestors: e.ancestors().map(|a| sx(&a)).collect(),
+            ancestors: observe_plain(|| e.ancestors(), &sx),
         })
         .collect();
     StorageObs {
